@@ -31,7 +31,7 @@ struct Ctl {
 }
 
 const W_HOLDS: [&str; 3] = ["w.after_wait", "w.after_read", "w.before_dispatch"];
-const C_HOLDS: [&str; 3] = ["c.after_state", "c.after_ctl", "c.after_dropkick"];
+const C_HOLDS: [&str; 4] = ["c.after_setkick", "c.after_state", "c.after_ctl", "c.after_dropkick"];
 
 impl Ctl {
     fn hit(&self, point: &'static str, args: &[u64]) {
@@ -176,6 +176,8 @@ pub fn run_case<V: VringT<GM> + Clone + Send + Sync + 'static>(case: &Value, tra
                     "stop" => (11, state(0, 0), vec![]),
                     "reset" => (34, vec![], vec![]),
                     "features" => (2, u64b(1 << 30), vec![]),
+                    // the ring is started again with the very eventfd it had before it was stopped
+                    "restart" => (12, u64b(0), vec![kicks.last().unwrap().as_raw_fd()]),
                     _ => {
                         kicks.push(new_eventfd());
                         (12, u64b(0), vec![kicks.last().unwrap().as_raw_fd()])
